@@ -398,6 +398,9 @@ Fixpoint number_loop (fuel : nat) (msg : string) (pos : nat) (w : Z) : M (nat * 
     else ret (pos, w)
   end.
 
+Definition msg_width_overflow : string := "w <= (INT_MAX - (*s - '0')) / 10".
+Definition msg_precision_overflow : string := "value <= (INT_MAX - (*s - '0')) / 10".
+
 (* after opts.minimum_width = pop_arg<int>: a negative width is the - flag and a positive width *)
 Definition set_left (o : format_options) : format_options :=
   let '(mk_fo cv mw ap da pr lj asg pbs alt fz gt uc) := o in mk_fo cv mw ap da pr true asg pbs alt fz gt uc.
@@ -439,7 +442,7 @@ Definition parse_directive (ag : byte -> format_options -> printf_size_mod -> M 
            o <-- star_width w opts ;;;
            ret ((pos + 1)%nat, o)
          else
-           z <-- number_loop fuel "w <= (INT_MAX - (*s - '0')) / 10" pos 0 ;;;
+           z <-- number_loop fuel msg_width_overflow pos 0 ;;;
            ret (fst z, set_width (snd z) opts)) ;;;
   let '(pos, opts) := y in
   c <-- read pos ;;;
@@ -451,7 +454,7 @@ Definition parse_directive (ag : byte -> format_options -> printf_size_mod -> M 
              p <-- pop_arg t_int opts ;;;
              ret ((pos + 2)%nat, if 0 <=? p then set_precision p opts else opts)
            else
-             z <-- number_loop fuel "value <= (INT_MAX - (*s - '0')) / 10" (pos + 1) 0 ;;;
+             z <-- number_loop fuel msg_precision_overflow (pos + 1) 0 ;;;
              ret (fst z, set_precision (snd z) opts)
          else ret (pos, opts)) ;;;
   let '(pos, opts) := y in
